@@ -1299,16 +1299,16 @@ def gen_cases(ctx):
         add(m, want, "corpus:rustc")
     for m, want in RUST_HANDMADE:
         add(m, want, "rust-handmade")
-    for _ in range(ctx.n(150, 2500)):
+    for _ in range(ctx.n(150, 1800)):
         m, want = formal_name(rng)
         add(m, want, "formal-mangler")
-    for _ in range(ctx.n(80, 1500)):
+    for _ in range(ctx.n(80, 1000)):
         m, want = formal_rust(rng)
         add(m.encode(), want.encode() if want is not None else None, "formal-rust")
     base = [c["name"] for c in cases]
     # (b) grammar
     g = Gram(rng, 4)
-    for _ in range(ctx.n(450, 5000)):
+    for _ in range(ctx.n(450, 4000)):
         g.maxd = rng.choice([1, 2, 3, 4, 6])
         add(g.symbol(), None, "grammar")
     for d in (1, 2, 30, 40):
@@ -1316,7 +1316,7 @@ def gen_cases(ctx):
             add(n, None, "deep")
     gram = [c["name"] for c in cases if c["origin"] in ("grammar", "deep")]
     # (c) mutation
-    for _ in range(ctx.n(650, 14000)):
+    for _ in range(ctx.n(650, 10000)):
         s = rng.choice(base) if rng.random() < 0.55 else rng.choice(gram)
         for _ in range(rng.choice([1, 1, 1, 2, 3])):
             s = mutate(rng, s)
